@@ -639,6 +639,153 @@ func genAny(c *hx.Ctx) *input {
 	return in
 }
 
+// ---- ring stitching (osm/polygons.go) ------------------------------------------------------------
+//
+//	rings nw (id nn node*)* nm member*   answer ok nl (n way*)* (n node*)*nl | err | panic
+//
+// the loops of groupWaysIntoLoops, then per loop the node IDs behind the vertices of waysToS2Loop's loop
+// (read back through distinct node locations; S2 may have reversed the loop).
+
+func ringsOp(c *hx.Ctx, ways []osm.Way, members []int64) {
+	t := &tw{}
+	t.n(len(ways))
+	wm := osm.WayMap{}
+	for _, w := range ways {
+		t.i(int64(w.ID))
+		t.n(len(w.Nodes))
+		for _, n := range w.Nodes {
+			t.i(int64(n))
+		}
+		wm[w.ID] = w
+	}
+	t.n(len(members))
+	rel := &osm.Relation{ID: 1}
+	for _, m := range members {
+		t.i(m)
+		rel.Members = append(rel.Members, osm.Member{Type: osm.ElementTypeWay, ID: osm.AnyID(m)})
+	}
+	locs := osm.LocationMap{}
+	back := map[s2.Point]int64{}
+	for _, w := range ways {
+		for _, n := range w.Nodes {
+			if _, ok := locs[n]; !ok {
+				k := len(back) // a distinct location per node, in order of first appearance
+				p := s2.PointFromLatLng(s2.LatLngFromDegrees(float64(k%160)-80, float64(k/160)*0.5-170))
+				locs[n] = p
+				back[p] = int64(n)
+			}
+		}
+	}
+	ans := hx.Recover(func() string {
+		loops, err := osm.VerifGroupWaysIntoLoops(rel, wm)
+		if err != nil {
+			return "err"
+		}
+		o := &tw{}
+		o.w("ok")
+		o.n(len(loops))
+		for _, l := range loops {
+			o.n(len(l))
+			for _, id := range l {
+				o.i(int64(id))
+			}
+		}
+		for _, l := range loops {
+			loop, err := osm.VerifWaysToS2Loop(l, wm, locs)
+			if err != nil {
+				return "err"
+			}
+			vs := loop.Vertices()
+			o.n(len(vs))
+			for _, v := range vs {
+				o.i(back[v])
+			}
+		}
+		return o.String()
+	})
+	c.Op("rings "+t.String(), ans)
+	c.Note("rings:" + strings.SplitN(ans, " ", 2)[0])
+}
+
+// genRings: node-disjoint cycles cut into ways of random direction, members shuffled; then, sometimes, a
+// perturbation that leaves the class (a way removed, a spur, a repeated member, a missing or empty way).
+func genRings(c *hx.Ctx) {
+	r := c.Rand
+	var ways []osm.Way
+	var members []int64
+	node := int64(1 + r.Intn(50))
+	wid := int64(1 + r.Intn(50))
+	ncycles := 1 + r.Intn(3)
+	for k := 0; k < ncycles; k++ {
+		nw := 1 + r.Intn(4) // ways in this cycle
+		joints := make([]int64, nw)
+		for i := range joints {
+			joints[i] = node
+			node += int64(1 + r.Intn(3))
+		}
+		for i := 0; i < nw; i++ {
+			a, b := joints[i], joints[(i+1)%nw]
+			nodes := []osm.NodeID{osm.NodeID(a)}
+			inner := r.Intn(3)
+			if nw == 1 && inner == 0 {
+				inner = 2
+			}
+			for q := 0; q < inner; q++ {
+				nodes = append(nodes, osm.NodeID(node))
+				node++
+			}
+			nodes = append(nodes, osm.NodeID(b))
+			if r.Bool() {
+				for x, y := 0, len(nodes)-1; x < y; x, y = x+1, y-1 {
+					nodes[x], nodes[y] = nodes[y], nodes[x]
+				}
+			}
+			ways = append(ways, osm.Way{ID: osm.WayID(wid), Nodes: nodes})
+			members = append(members, wid)
+			wid += int64(1 + r.Intn(3))
+		}
+	}
+	p := r.Perm(len(members))
+	sh := make([]int64, len(members))
+	for i, j := range p {
+		sh[i] = members[j]
+	}
+	members = sh
+	kind := "cycles"
+	if r.Chance(1, 3) {
+		switch r.Intn(6) {
+		case 0: // a way of a cycle is not a member: open chain
+			if len(members) > 1 {
+				members = members[1:]
+				kind = "member-removed"
+			}
+		case 1: // a spur at an existing joint: three way-ends at one node
+			w := ways[r.Intn(len(ways))]
+			ways = append(ways, osm.Way{ID: osm.WayID(wid), Nodes: []osm.NodeID{w.Nodes[0], osm.NodeID(node)}})
+			members = append(members, wid)
+			kind = "spur"
+		case 2: // a member listed twice
+			members = append(members, members[r.Intn(len(members))])
+			kind = "member-twice"
+		case 3: // a member that is not in the way map
+			members = append(members, 9999)
+			kind = "way-missing"
+		case 4: // a way without nodes
+			ways = append(ways, osm.Way{ID: osm.WayID(wid)})
+			members = append(members, wid)
+			kind = "way-empty"
+		case 5: // two cycles touching in a node
+			if len(ways) >= 2 {
+				w := &ways[len(ways)-1]
+				w.Nodes[0] = ways[0].Nodes[0]
+				kind = "cycles-touch"
+			}
+		}
+	}
+	c.Note("rings-input:" + kind)
+	ringsOp(c, ways, members)
+}
+
 func square(ids [4]int64, lat, lng float64) []osm.Node {
 	return []osm.Node{
 		{ID: osm.NodeID(ids[0]), Location: osm.LatLng{Lat: lat, Lng: lng}},
@@ -658,8 +805,8 @@ func main() {
 		}
 	}()
 	hx.Main(hx.Family{
-		Name: "c29",
-		Rule: "OSM inputs (well formed: nodes on circles, open/closed ways either direction, multipolygon and plain relations over nodes/ways/relations present and missing, tag keys in and out of the mapping; and unconstrained ones with duplicate/extreme IDs and degenerate ways) through the feature source (memory and PBF, 1 and 3 goroutines) and the basic and compact world builders; non-trivial = a plain relation with a member that is a closed way or a multipolygon relation of the input",
+		Name:     "c29",
+		Rule:     "OSM inputs (well formed: nodes on circles, open/closed ways either direction, multipolygon and plain relations over nodes/ways/relations present and missing, tag keys in and out of the mapping; and unconstrained ones with duplicate/extreme IDs and degenerate ways) through the feature source (memory and PBF, 1 and 3 goroutines) and the basic and compact world builders; non-trivial = a plain relation with a member that is a closed way or a multipolygon relation of the input",
 		Quick:    2500,
 		Thorough: 20000,
 		Corpus: func(c *hx.Ctx) {
@@ -705,6 +852,12 @@ func main() {
 					c.Op("key "+hx.Hex([]byte(k)), hx.Hex([]byte(ingest.KeyForOSMKey(k))))
 				}
 				c.Note("keys")
+				return
+			}
+			if r.Chance(1, 6) {
+				for i := 0; i < 6; i++ {
+					genRings(c)
+				}
 				return
 			}
 			var in *input
